@@ -273,14 +273,19 @@ def memory_readonly(o0: int, o1: int, from_config: bool):
     "C19.null",
     covers=("null-storage", "null-runner"),
     split={"which": ["storage", "runner"]},
-    bounds="null storage: after any L=3 operations of the C05 alphabet nothing is reported as memoized and every call executes; null "
+    bounds="null storage: after any L=2 operations of the C05 alphabet nothing is reported as memoized and every call executes; null "
            "runner: no body executes for call / call_batch / force-free variants, RuntimeError instead (memoized or not)",
     variables="choice: o0, o1, o2 / call form",
     budget_s={"quick": 120, "thorough": 300},
     choice_vars=3,
 )
 def null(o0: int, o1: int, o2: int, which: str):
-    ops = [pick(o, len(OPS)) for o in (o0, o1, o2)]
+    if which == "storage":
+        ops = [pick(o0, len(OPS)), pick(o1, len(OPS))]
+        assume(o2 == 0)
+    else:
+        ops = [pick(o0, 4), pick(o1, 2)]
+        assume(o2 == 0)
     with concrete_region():
         if which == "storage":
             cover("null-storage")
